@@ -855,6 +855,9 @@ def main():
     ap.add_argument("--spec", default=os.path.join(os.path.dirname(__file__), "whitelist.json"))
     ap.add_argument("--out", required=True)
     ap.add_argument("--status", required=True)
+    ap.add_argument("--raw", action="store_true",
+                    help="emit namespace TsGenRaw into --out; struct/enum TYPES are taken from the frozen "
+                         "canonical modules TsVerif.Gen.* and only checked for agreement")
     a = ap.parse_args()
     spec = json.load(open(a.spec))
     ctx = Ctx()
@@ -869,9 +872,16 @@ def main():
     os.makedirs(a.out, exist_ok=True)
     for mod in spec["modules"]:
         lines = ["-- GENERATED by translator/c2lean.py from /repo — do not edit.\n"]
-        for imp in mod.get("imports", []):
-            lines.append("import %s\n" % imp)
-        lines.append("\nset_option linter.unusedVariables false\n\nnamespace TsGen\n\n")
+        if a.raw:
+            lines.append("import TsVerif.Gen.%s\n" % mod["name"])
+            for imp in mod.get("imports", []):
+                lines.append("import %s\n" % imp.replace("TsVerif.Gen.", "TsVerif.GenRaw."))
+            lines.append("\nset_option linter.unusedVariables false\n\nnamespace TsGenRaw\n"
+                         "open TsGen (TSPoint TSRange TSInputEdit Length)\n\n")
+        else:
+            for imp in mod.get("imports", []):
+                lines.append("import %s\n" % imp)
+            lines.append("\nset_option linter.unusedVariables false\n\nnamespace TsGen\n\n")
         for item in mod["items"]:
             kind, name, rel = item["kind"], item["name"], item["file"]
             try:
@@ -881,6 +891,14 @@ def main():
                     if name not in ctx.structs:
                         raise SyntaxError("struct %s not found" % name)
                     txt = emit_struct(ctx, name)
+                    if a.raw:
+                        # the canonical structure must have exactly these fields, of these types, in this order
+                        flds = ctx.structs[name]
+                        txt = ("/- layout check against the canonical TsGen.%s -/\n" % name +
+                               "example %s : TsGen.%s := TsGen.%s.mk %s\n" % (
+                                   " ".join("(%s : %s)" % (f, lean_type(ctx, t)) for f, t in flds), name, name,
+                                   " ".join(f for f, _ in flds)) +
+                               "".join("example (x : TsGen.%s) : %s := x.%s\n" % (name, lean_type(ctx, t), f) for f, t in flds))
                     sha = hashlib.sha256(txt.encode()).hexdigest()[:16]
                     line = 0
                 elif kind == "enum":
@@ -888,6 +906,11 @@ def main():
                     if name not in ctx.enums:
                         raise SyntaxError("enum %s not found" % name)
                     txt = emit_enum(ctx, name)
+                    if a.raw:
+                        ctors = ctx.enums[name]
+                        txt = ("/- constructor check against the canonical TsGen.%s -/\nopen TsGen (%s)\n" % (name, name) +
+                               "example (q : TsGen.%s) : Nat :=\n  match q with\n" % name +
+                               "".join("  | .%s => %d\n" % (c, i) for i, c in enumerate(ctors)))
                     sha = hashlib.sha256(txt.encode()).hexdigest()[:16]
                     line = 0
                 elif kind == "define":
@@ -931,7 +954,7 @@ def main():
             except (SyntaxError, AssertionError, IndexError, KeyError, ValueError) as ex:
                 status["broken"].append({"name": name, "file": rel, "error": str(ex)})
                 lines.append("-- BROKEN TIE: %s (%s): %s\n\n" % (name, rel, ex))
-        lines.append("end TsGen\n")
+        lines.append("end TsGenRaw\n" if a.raw else "end TsGen\n")
         path = os.path.join(a.out, mod["name"] + ".lean")
         new = "".join(lines)
         old = open(path).read() if os.path.exists(path) else None
